@@ -497,12 +497,13 @@ Proof.
     destruct (m15_val_of f dur_ns) as [v|]; [|exact I].
     unfold result_variant. split; [reflexivity|]. split; [exact Hst|apply planner_variant_m15].
   - (* PLineFormatP *)
-    destruct Hv as (<- & Hv). cbn [process]. unfold bind.
+    destruct Hv as (Ht & Hv). cbn [process]. unfold bind.
     sub IHp Hv Hst c st st' q s1 p1 q' s1' p1' Hq Hs1 Hp1.
     nid Hs1 s1 s1' i s2 s2' Hs2.
-    destruct (tpl_parse tmpl) as [nodes| |]; try exact I.
+    pose proof Ht as Ht0. unfold tpl_variant in Ht.
+    destruct (tpl_parse tmpl) as [nodes| |], (tpl_parse tmpl0) as [nodes'| |]; try contradiction; try exact I.
     unfold result_variant. split; [|split; [exact Hs2|cbn [planner_variant]; auto]].
-    apply Es_set_cols; [|exact Hq]. apply E_patch_col; [exact (Es_cols q q' Hq)|]. intros; reflexivity.
+    apply Es_set_cols; [|exact Hq]. apply E_patch_col; [exact (Es_cols q q' Hq)|]. intros x x' _. exact Ht.
 Qed.
 
 (* ---------- planner.plan(): requests that differ only in values get the same tree of planner objects ---------- *)
@@ -553,7 +554,7 @@ Proof.
   - destruct Hs as (Ho & Hr & _). cbn [planner_variant]. auto.
   - destruct b; [exact Hc|]. cbn [planner_variant]. auto.
   - destruct Hs as [Hf Hp]. cbn [planner_variant]. auto.
-  - subst. cbn [planner_variant]. auto.
+  - cbn [planner_variant]. auto.
   - cbn [planner_variant]. auto.
   - destruct b; [exact Hc|]. cbn [planner_variant]. auto.
 Qed.
